@@ -346,3 +346,27 @@ M("C05", "twin-direct-costs", "job.py", "                costs = self.problem.su
 M("C05", "twin-no-none-test", "job.py", "                if self.problem is not None:\n                    individual.calc_signed_costs(self.problem.signs)  # the idea is to make this conversion only once\n", "                individual.calc_signed_costs(self.problem.signs)\n", "H")
 M("C05", "twin-listcomp-signed", "individual.py", 'self.costs_signed = list(map(lambda x, y: x * np.round(y, decimals=self.features["precision"]), p_signs, self.costs))', 'self.costs_signed = [s * np.round(c, decimals=self.features["precision"]) for s, c in zip(p_signs, self.costs)]', "H")
 M("C04", "remove-via-method", "archive.py", "                    del self._contents[index - number_of_deleted_solutions]\n                    number_of_deleted_solutions += 1\n", "                    self.remove(current_solution)\n")
+
+# ---------------------------------------------------------------- C18
+M("C18", "best-flag-ne-1", "algorithm_swarm.py", "            if flag != 2:\n                particle.features['best_cost']", "            if flag != 1:\n                particle.features['best_cost']")
+M("C18", "best-only-if-dominates", "algorithm_swarm.py", "            if flag != 2:\n                particle.features['best_cost']", "            if flag == 1:\n                particle.features['best_cost']")
+M("C18", "best-one-field", "algorithm_swarm.py", "                particle.features['best_cost'] = particle.costs_signed\n                particle.features['best_vector'] = particle.vector\n\n    def turbulence", "                particle.features['best_cost'] = particle.costs_signed\n\n    def turbulence")
+M("C18", "best-args-swapped", "algorithm_swarm.py", "flag = self.dominance.compare(particle.costs_signed, particle.features['best_cost'])", "flag = self.dominance.compare(particle.features['best_cost'], particle.costs_signed)")
+M("C18", "best-always", "algorithm_swarm.py", "            if flag != 2:\n                particle.features['best_cost'] = particle.costs_signed\n                particle.features['best_vector'] = particle.vector", "            particle.features['best_cost'] = particle.costs_signed\n            particle.features['best_vector'] = particle.vector")
+M("C18", "clamp-upper-removed", "algorithm_swarm.py", "        velocity = min(velocity, delta_i)\n        velocity = max(velocity, -delta_i)", "        velocity = max(velocity, -delta_i)")
+M("C18", "clamp-full-range", "algorithm_swarm.py", "delta_i = (u_bound - l_bound) / 2.", "delta_i = (u_bound - l_bound)")
+M("C18", "clamp-wrong-sign", "algorithm_swarm.py", "        velocity = max(velocity, -delta_i)", "        velocity = max(velocity, delta_i)")
+M("C18", "clamp-bounds-swapped-call", "algorithm_swarm.py", "individual.features['velocity'][i] = self.speed_constriction(v, ub, lb)", "individual.features['velocity'][i] = self.speed_constriction(v, lb, ub)")
+M("C18", "clamp-other-index", "algorithm_swarm.py", "                individual.features['velocity'][i] = self.speed_constriction(v, self.parameters[i]['bounds'][1],\n                                                                             self.parameters[i]['bounds'][0])", "                individual.features['velocity'][i] = self.speed_constriction(v, self.parameters[0]['bounds'][1],\n                                                                             self.parameters[0]['bounds'][0])")
+M("C18", "velocity-unclamped", "algorithm_swarm.py", "individual.features['velocity'][i] = self.speed_constriction(v, ub, lb)", "individual.features['velocity'][i] = v")
+M("C18", "smpso-factor", "algorithm_swarm.py", "                if individual.vector[i] > parameter['bounds'][1]:\n                    individual.vector[i] = parameter['bounds'][1]\n                    individual.features['velocity'][i] *= 0.001", "                if individual.vector[i] > parameter['bounds'][1]:\n                    individual.vector[i] = parameter['bounds'][1]\n                    individual.features['velocity'][i] *= 0.01")
+M("C18", "omopso-no-reverse", "algorithm_swarm.py", "                # adjust minimum position if necessary\n                if individual.vector[i] < parameter['bounds'][0]:\n                    individual.vector[i] = parameter['bounds'][0]\n                    individual.features['velocity'][i] *= -1\n\n    def update_global_best(self, swarm):\n        \"\"\" Manages the leader class in OMOPSO. \"\"\"\n\n        # the fitness of the particles are calculated by their crowding distance\n\n        # crowding_distance(swarm)", "                # adjust minimum position if necessary\n                if individual.vector[i] < parameter['bounds'][0]:\n                    individual.vector[i] = parameter['bounds'][0]\n\n    def update_global_best(self, swarm):\n        \"\"\" Manages the leader class in OMOPSO. \"\"\"\n\n        # the fitness of the particles are calculated by their crowding distance\n\n        # crowding_distance(swarm)")
+M("C18", "psoga-wrong-bound", "algorithm_swarm.py", "                if individual.vector[i] > parameter['bounds'][1]:\n                    individual.vector[i] = parameter['bounds'][1]\n                    individual.features['velocity'][i] *= -1\n\n                if individual.vector[i] < parameter['bounds'][0]:", "                if individual.vector[i] > parameter['bounds'][1]:\n                    individual.vector[i] = parameter['bounds'][0]\n                    individual.features['velocity'][i] *= -1\n\n                if individual.vector[i] < parameter['bounds'][0]:")
+M("C18", "psoga-lower-test-dropped", "algorithm_swarm.py", "                if individual.vector[i] < parameter['bounds'][0]:\n                    individual.vector[i] = parameter['bounds'][0]\n                    individual.features['velocity'][i] *= -1\n\n            # self.makeinteger(individual.vector)", "            # self.makeinteger(individual.vector)")
+M("C18", "smpso-no-truncate", "algorithm_swarm.py", "        self.leaders += swarm\n        self.leaders.truncate(self.options['max_population_size'], 'crowding_distance')\n        # self.problem.archive += swarm", "        self.leaders += swarm\n        # self.problem.archive += swarm")
+M("C18", "psoga-truncate-first", "algorithm_swarm.py", "        crowding_distance(swarm)\n\n        self.leaders += swarm\n        self.leaders.truncate(self.options['max_population_size'], 'crowding_distance')\n        return\n\n    def run(self):\n        start", "        crowding_distance(swarm)\n\n        self.leaders.truncate(self.options['max_population_size'], 'crowding_distance')\n        self.leaders += swarm\n        return\n\n    def run(self):\n        start")
+M("C18", "omopso-truncate-size", "algorithm_swarm.py", "        self.leaders.truncate(self.options['max_population_size'], 'crowding_distance')\n        self.archive += swarm", "        self.leaders.truncate(2 * self.options['max_population_size'], 'crowding_distance')\n        self.archive += swarm")
+M("C18", "leaders-remove-by-equality", "archive.py", "                    del self._contents[index - number_of_deleted_solutions]\n                    number_of_deleted_solutions += 1\n", "                    self.remove(current_solution)\n")
+# twins
+M("C18", "twin-best-flag-in", "algorithm_swarm.py", "            if flag != 2:\n                particle.features['best_cost']", "            if flag == 0 or flag == 1:\n                particle.features['best_cost']", "H")
+M("C18", "twin-clamp-order", "algorithm_swarm.py", "        velocity = min(velocity, delta_i)\n        velocity = max(velocity, -delta_i)", "        velocity = max(velocity, -delta_i)\n        velocity = min(velocity, delta_i)", "H")
